@@ -101,7 +101,7 @@ def main():
           {"name": "api", "path": "/verif/spec/Api.tla", "serves_properties": ["C14"], "kind_free_text": "TLA+ spec of call histories over caller-owned objects; transition replay"},
           {"name": "serialize", "path": "/verif/spec/Serialize.tla", "serves_properties": ["C16"], "kind_free_text": "TLA+ spec of the two-pass external-buffer layout; ObservedSerialize.tla"},
           {"name": "validate", "path": "/verif/spec/Validate.tla", "serves_properties": ["C18"], "kind_free_text": "TLA+ spec of the comparison-result partition; ObservedValidate.tla"},
-          {"name": "policy", "path": "/verif/spec/Policy.tla", "serves_properties": ["C13"], "kind_free_text": "TLA+ trace spec of the acceptance protocol of one lattice point"},
+          {"name": "policy", "path": "/verif/spec/Policy.tla", "serves_properties": ["C13"], "kind_free_text": "TLA+ trace spec of the acceptance protocol of one lattice point; Registry.tla (the algorithm registry behind the acceptance decision) replayed state by state"},
           {"name": "quantmath", "path": "/verif/spec/QuantMath.tla", "serves_properties": [p for p, c in CHECKS.items() if c["engine"] == "quantmath"],
            "kind_free_text": "exact-rational TLA+ reference of the quantisation arithmetic; expected-value replay; ObservedMath.tla"},
       ],
